@@ -302,7 +302,6 @@ func computeCursors(fns []*ssa.Function) *cursorInfo {
 	return ci
 }
 
-
 // readFields: for every struct type, the fields that fns load (through a
 // field address, or a Field instruction on a loaded struct value).
 func readFields(fns []*ssa.Function) map[*types.Struct]map[int]bool {
